@@ -5,6 +5,9 @@ Driver module for C09.  Line format: `harness/src/c09.rs` (C08's line plus `craf
 Correspondence: as C08 — result class and post-state of the whole sandbox, `..`-laden paths included (the
 model resolves them the way the kernel does).
 
+For a late error on both sides (a failure after the wipe) only the outcome class and the part of the sandbox
+OUTSIDE the target are compared: which files had been written before the failure is not part of the statement.
+
 Specification rules on the implementation's own observation:
 * `frame`: everything outside the target is the same before and after (any outcome).  Features name the
   unsafe relative paths the font carries (`store-key-dotdot`, `glif-path-dotdot`), so that the two recorded
@@ -33,7 +36,13 @@ def run (inp obs : List String) : Verdict :=
   let okClass := resClass mr == obsClass r
   -- an untouched symbolic link at the target is the model's entry-less directory (see `preForModel`)
   let oListM := listing (preForModel t post)
-  let okTree := treeMatches mList oListM
+  -- a save that FAILS after the wipe on both sides (late error): the property demands nothing of the partial content of the
+  -- target (which files had been written before the failure depends on the write order, which is not part of any
+  -- statement); the correspondence then compares the outcome class and everything OUTSIDE the target.  The
+  -- specification rules below are untouched by this (`frame` is evaluated on every outcome).
+  let lateBoth := resClass mr == "late-error" && obsClass r == "late-error"
+  let okTree := if lateBoth then treeMatches (mList.filter fun e => !under t e.1) (oListM.filter fun e => !under t e.1)
+    else treeMatches mList oListM
   -- specification
   let preOut := (listing pre).filter fun e => !under t e.1
   let postOut := oList.filter fun e => !under t e.1
@@ -80,6 +89,7 @@ def run (inp obs : List String) : Verdict :=
     (if fieldNat inp "load" = 1 then ["loaded"] else ["api-built"]) ++
     (if f.data.root == t && t ≠ [] then ["inplace"] else []) ++
     (if safePaths f then ["safe"] else ["unsafe"]) ++
+    (if lateBoth then ["late-both"] else []) ++
     (if field inp "pre" ≠ "0" || field inp "craft" ≠ "0" then ["nt"] else [])
   { agree := okClass && okTree,
     spec := s0 ++ s1 ++ s2 ++ s3 ++ s5 ++ s6 ++ s7,
